@@ -4,7 +4,7 @@
 (* as a pair of total operators over *abstract wire frames*:               *)
 (*                                                                         *)
 (*     SerializeFrame(f) : frame -> sequence of octets                          *)
-(*     Parse(b)     : octets of exactly one frame -> frame | Err           *)
+(*     Parse(b)     : octets of exactly one frame -> frame | Err (= ParseOne)*)
 (*     ParseStream(b): octets -> sequence of frames (length delimited)     *)
 (*     Logical(fs)  : what a receiver must extract from a frame sequence   *)
 (*                    (reserved bits, undefined flags and padding dropped, *)
@@ -161,6 +161,8 @@ ParseOne(b) ==
            ELSE [type |-> t, r |-> r, sid |-> sid, uf |-> uf, wr |-> TopBit(p), incr |-> Low31(p)]
       [] t = "CONTINUATION" ->
            [type |-> t, r |-> r, sid |-> sid, uf |-> uf, eh |-> Bit(fl, 2), frag |-> p]
+
+Parse(b) == ParseOne(b)
 
 \* length-delimited splitting of an octet stream; a trailing incomplete frame yields Err("short")
 RECURSIVE ParseStream(_)
